@@ -240,6 +240,14 @@ Proof.
         eapply suffix_trans; [exact H2|eapply Hf; exact H1].
 Qed.
 
+Lemma closed_chain L f S0 : shrinking f -> Good L S0 -> closed f S0 ->
+  forall k r0 r, chain f k r0 r -> In r0 S0 -> In r S0.
+Proof.
+  intros Hf HG Hcl k r0 r Hc. induction Hc as [r|k r0 r1 r H1 Hc IH]; intros H0; [exact H0|].
+  apply IH. eapply Good_In; [exact HG| |eapply Hcl; eassumption].
+  eapply suffix_trans; [eapply Hf; exact H1|apply HG; exact H0].
+Qed.
+
 (* the fuel [S (length l)] reaches the whole reflexive-transitive closure *)
 Lemma star_complete f l : shrinking f -> forall k r, chain f k l r -> In r (star (S (length l)) f [l]).
 Proof.
@@ -248,8 +256,402 @@ Proof.
   - apply Good_single.
   - simpl. constructor; [intros []|constructor].
   - simpl. lia.
-  - assert (H0 : In l (star (S (length l)) f [l])) by (apply Hin; left; reflexivity).
-    revert H0. generalize (star (S (length l)) f [l]) at 1 3 as S0. intros S0. revert HG Hcl.
-    generalize (star (S (length l)) f [l]) as S1. intros S1 HG Hcl. clear Hin.
-    admit.
-Admitted.
+  - eapply closed_chain; [exact Hf|exact HG|exact Hcl|exact Hc|]. apply Hin. left. reflexivity.
+Qed.
+
+(* ------------------------------------------------------------------ [rem] returns suffixes of its input *)
+Lemma iterate_single_shrinking k f : shrinking f -> shrinking (fun r => iterate k f [r]).
+Proof.
+  intros Hf l x H. apply iterate_sound in H as (r & [<-|[]] & H); [exact H|exact Hf].
+Qed.
+
+Lemma star_single_shrinking f : shrinking f -> shrinking (fun r => star (S (length r)) f [r]).
+Proof.
+  intros Hf l x H. apply star_sound in H as (r & [<-|[]] & H); [exact H|exact Hf].
+Qed.
+
+Ltac atom_shr H :=
+  simpl in H;
+  repeat (match type of H with
+          | context[match ?e with _ => _ end] => destruct e
+          | context[if ?e then _ else _] => destruct e
+          end; simpl in H);
+  try contradiction; destruct H as [<-|[]]; first [apply suffix_refl | apply suffix_tail].
+
+Lemma rem_shrinking N T wd : forall s, shrinking (rem N T wd s).
+Proof.
+  induction s as [| | | | | | | | | | | | | | | | | |cc sa IHa sb IHb|sa IHa sb IHb|sb IHb|sb IHb|sb IHb|sb IHb| | | | | | | | | |lc sa IHa];
+    intros l x H; try solve [atom_shr H].
+  - (* If *) simpl in H. apply union_rem_In in H as [H|H]; [eapply IHa|eapply IHb]; exact H.
+  - (* Seq *) apply step_In in H as (r & H1 & H2). eapply suffix_trans; [eapply IHb; exact H2|eapply IHa; exact H1].
+  - (* ForSlots *) eapply (iterate_single_shrinking N _ IHb). exact H.
+  - (* RepeatAny *) eapply (star_single_shrinking _ IHb). exact H.
+  - (* Repeat *) eapply (iterate_single_shrinking T _ IHb). exact H.
+  - (* Onlooker *) eapply (star_single_shrinking _ (iterate_single_shrinking N _ IHb)). exact H.
+  - (* At *) eapply IHa. exact H.
+Qed.
+
+(* ------------------------------------------------------------------ the instrumented execution *)
+Definition obs_ev (e : event) : oev :=
+  match e with EvEval _ _ => OE | EvHook _ => OH | EvDump _ => OD | EvDraw => OR end.
+(* the observable projection of the events of the semantics *)
+Definition obs (evs : list event) : list oev := map obs_ev evs.
+(* [Clip r] and [ClipAll] are observed by the run monitor but emit no event in the semantics *)
+Definition silent (e : oev) : bool := match e with OC | OA => true | _ => false end.
+Definition visible (t : list oev) : list oev := filter (fun e => negb (silent e)) t.
+(* what the matcher sees: everything, or (GP) everything but the draws *)
+Definition proj (with_draws : bool) (t : list oev) : list oev :=
+  if with_draws then t else filter (fun e => negb (oev_eqb e OR)) t.
+Definition atom_tr (s : stmt) : list oev := match atom_oev s with Some e => [e] | None => [] end.
+
+Lemma proj_app wd a b : proj wd (a ++ b) = proj wd a ++ proj wd b.
+Proof. destruct wd; simpl; [reflexivity|apply filter_app]. Qed.
+
+Lemma visible_app a b : visible (a ++ b) = visible a ++ visible b.
+Proof. apply filter_app. Qed.
+
+Lemma obs_app a b : obs (a ++ b) = obs a ++ obs b.
+Proof. apply map_app. Qed.
+
+Definition tres := option (st * list event * list answer * list oev).
+Definition forget (r : tres) : res := match r with Some (x, e, o, _) => Some (x, e, o) | None => None end.
+Definition tret (x : st) (o : list answer) : tres := Some (x, [], o, []).
+Definition tbind (r : tres) (k : st -> list answer -> tres) : tres :=
+  match r with
+  | Some (s, e, o, t) => match k s o with Some (s', e', o', t') => Some (s', e ++ e', o', t ++ t') | None => None end
+  | None => None
+  end.
+
+Lemma tbind_some r k x e o t :
+  tbind r k = Some (x, e, o, t) ->
+  exists x1 e1 o1 t1 e2 t2, r = Some (x1, e1, o1, t1) /\ k x1 o1 = Some (x, e2, o, t2) /\ e = e1 ++ e2 /\ t = t1 ++ t2.
+Proof.
+  unfold tbind. destruct r as [[[[x1 e1] o1] t1]|]; [|discriminate].
+  destruct (k x1 o1) as [[[[x2 e2] o2] t2]|] eqn:E; [|discriminate].
+  intros H. injection H as <- <- <- <-. exists x1, e1, o1, t1, e2, t2. repeat split; assumption.
+Qed.
+
+Lemma forget_tbind r k : forget (tbind r k) = bind (forget r) (fun x o => forget (k x o)).
+Proof.
+  destruct r as [[[[x1 e1] o1] t1]|]; simpl; [|reflexivity].
+  destruct (k x1 o1) as [[[[x2 e2] o2] t2]|]; reflexivity.
+Qed.
+
+Fixpoint titer (n : nat) (body : list answer -> st -> tres) (o : list answer) (x : st) : tres :=
+  match n with
+  | 0 => tret x o
+  | S k => tbind (body o x) (fun x1 o1 => titer k body o1 x1)
+  end.
+
+Fixpoint titer_slots (i n : nat) (body : nat -> list answer -> st -> tres) (o : list answer) (x : st) : tres :=
+  match n with
+  | 0 => tret x o
+  | S k => tbind (body i o x) (fun x1 o1 => titer_slots (S i) k body o1 x1)
+  end.
+
+Lemma bind_ext r k1 k2 : (forall x o, k1 x o = k2 x o) -> bind r k1 = bind r k2.
+Proof. intros H. destruct r as [[[x e] o]|]; simpl; [rewrite H|]; reflexivity. Qed.
+
+Lemma forget_titer n tb b : (forall o x, forget (tb o x) = b o x) -> forall o x, forget (titer n tb o x) = iter n b o x.
+Proof.
+  intros Hb. induction n as [|n IH]; intros o x; simpl; [reflexivity|].
+  rewrite forget_tbind, Hb. apply bind_ext. intros x1 o1. apply IH.
+Qed.
+
+Lemma forget_titer_slots n tb b : (forall i o x, forget (tb i o x) = b i o x) ->
+  forall i o x, forget (titer_slots i n tb o x) = iter_slots i n b o x.
+Proof.
+  intros Hb. induction n as [|n IH]; intros i o x; simpl; [reflexivity|].
+  rewrite forget_tbind, Hb. apply bind_ext. intros x1 o1. apply IH.
+Qed.
+
+Section TrSem.
+  Variables (lbs ubs : list Z) (f : contents -> Z) (hk : st -> st) (n_iter : nat) (okc : contents -> contents -> bool).
+  Notation exec := (exec lbs ubs f hk n_iter okc).
+  Notation exec_atom := (exec_atom lbs ubs f hk okc).
+  Notation evalc := (evalc).
+
+  (* the same recursion as [exec]; in addition the [atom_oev] of every atom executed, in order *)
+  Fixpoint tr_exec (cur : option nat) (s : stmt) (o : list answer) (x : st) {struct s} : tres :=
+    match s with
+    | Seq s1 s2 => tbind (tr_exec cur s1 o x) (fun x1 o1 => tr_exec cur s2 o1 x1)
+    | If c s1 s2 =>
+        match evalc c cur o x with
+        | Some (b, o1) => if b then tr_exec cur s1 o1 x else tr_exec cur s2 o1 x
+        | None => None end
+    | At _ s1 => tr_exec cur s1 o x
+    | ForSlots b => titer_slots 0 (length (pop x)) (fun i => tr_exec (Some i) b) o x
+    | RepeatAny b => match o with ANat n :: o' => titer n (tr_exec cur b) o' x | _ => None end
+    | Repeat b => titer n_iter (tr_exec cur b) o x
+    | Onlooker b =>
+        match o with
+        | ANat n :: o' => titer n (fun o1 x1 => titer_slots 0 (length (pop x1)) (fun i => tr_exec (Some i) b) o1 x1) o' x
+        | _ => None end
+    | _ => match exec_atom cur s o x with
+           | Some (x', e, o') => Some (x', e, o', atom_tr s)
+           | None => None end
+    end.
+
+  Definition tr_run (p : stmt) (o : list answer) (x : st) : tres := tr_exec None p o x.
+
+  Lemma tr_exec_atom s cur o x : is_atom s = true ->
+    tr_exec cur s o x = match exec_atom cur s o x with Some (x', e, o') => Some (x', e, o', atom_tr s) | None => None end.
+  Proof. destruct s; intros H; try discriminate H; reflexivity. Qed.
+
+  Lemma exec_is_atom s cur o x : is_atom s = true -> exec cur s o x = exec_atom cur s o x.
+  Proof. destruct s; intros H; try discriminate H; reflexivity. Qed.
+
+  (* [tr_exec] is [exec] with one more output *)
+  Lemma forget_tr_exec s : forall cur o x, forget (tr_exec cur s o x) = exec cur s o x.
+  Proof.
+    induction s as [| | | | | | | | | | | | | | | | | |cc sa IHa sb IHb|sa IHa sb IHb|sb IHb|sb IHb|sb IHb|sb IHb| | | | | | | | | |lc sa IHa];
+      intros cur o x;
+      try solve [rewrite tr_exec_atom, exec_is_atom by reflexivity;
+                 match goal with |- context[exec_atom cur ?s o x] => destruct (exec_atom cur s o x) as [[[? ?] ?]|] end; reflexivity].
+    - simpl. destruct (evalc cc cur o x) as [[[|] o1]|]; [apply IHa|apply IHb|reflexivity].
+    - simpl. rewrite forget_tbind, IHa. apply bind_ext. intros x1 o1. apply IHb.
+    - simpl. apply forget_titer_slots. intros i o1 x1. apply IHb.
+    - simpl. destruct o as [|[?|?|n|?] o1]; try reflexivity. apply forget_titer. intros o2 x2. apply IHb.
+    - simpl. apply forget_titer. intros o2 x2. apply IHb.
+    - simpl. destruct o as [|[?|?|n|?] o1]; try reflexivity. apply forget_titer. intros o2 x2.
+      apply forget_titer_slots. intros i o3 x3. apply IHb.
+    - simpl. apply IHa.
+  Qed.
+
+  Theorem tr_exec_exec cur s o x x' evs o' t :
+    tr_exec cur s o x = Some (x', evs, o', t) -> exec cur s o x = Some (x', evs, o').
+  Proof. intros H. rewrite <- forget_tr_exec, H. reflexivity. Qed.
+
+  Theorem exec_tr_exec cur s o x x' evs o' :
+    exec cur s o x = Some (x', evs, o') -> exists t, tr_exec cur s o x = Some (x', evs, o', t).
+  Proof.
+    intros H. rewrite <- forget_tr_exec in H. destruct (tr_exec cur s o x) as [[[[x1 e1] o1] t1]|]; [|discriminate].
+    simpl in H. injection H as <- <- <-. exists t1. reflexivity.
+  Qed.
+End TrSem.
+
+(* ------------------------------------------------------------------ events of the semantics = trace minus OC / OA *)
+Section Obs.
+  Variables (lbs ubs : list Z) (f : contents -> Z) (hk : st -> st) (n_iter : nat) (okc : contents -> contents -> bool).
+  Notation exec_atom := (exec_atom lbs ubs f hk okc).
+  Notation tr_exec := (tr_exec lbs ubs f hk n_iter okc).
+
+  Ltac dm H :=
+    repeat match type of H with
+           | context[match ?e with _ => _ end] => destruct e eqn:?; try discriminate H
+           | context[if ?e then _ else _] => destruct e eqn:?; try discriminate H
+           end.
+
+  Lemma exec_atom_obs s cur o x x' evs o' :
+    is_atom s = true -> exec_atom cur s o x = Some (x', evs, o') -> obs evs = visible (atom_tr s).
+  Proof.
+    intros Ha H. destruct s; simpl in Ha; try discriminate; simpl in H; unfold ret in H; dm H;
+      try (injection H as <- <- <-); reflexivity.
+  Qed.
+
+  Lemma titer_obs (body : list answer -> st -> tres) :
+    (forall o x x' evs o' t, body o x = Some (x', evs, o', t) -> obs evs = visible t) ->
+    forall n o x x' evs o' t, titer n body o x = Some (x', evs, o', t) -> obs evs = visible t.
+  Proof.
+    intros Hb n. induction n as [|n IH]; intros o x x' evs o' t H; simpl in H.
+    - injection H as <- <- <- <-. reflexivity.
+    - apply tbind_some in H as (x1 & e1 & o1 & t1 & e2 & t2 & H1 & H2 & -> & ->).
+      rewrite obs_app, visible_app, (Hb _ _ _ _ _ _ H1), (IH _ _ _ _ _ _ H2). reflexivity.
+  Qed.
+
+  Lemma titer_slots_obs (body : nat -> list answer -> st -> tres) :
+    (forall i o x x' evs o' t, body i o x = Some (x', evs, o', t) -> obs evs = visible t) ->
+    forall n i o x x' evs o' t, titer_slots i n body o x = Some (x', evs, o', t) -> obs evs = visible t.
+  Proof.
+    intros Hb n. induction n as [|n IH]; intros i o x x' evs o' t H; simpl in H.
+    - injection H as <- <- <- <-. reflexivity.
+    - apply tbind_some in H as (x1 & e1 & o1 & t1 & e2 & t2 & H1 & H2 & -> & ->).
+      rewrite obs_app, visible_app, (Hb _ _ _ _ _ _ _ H1), (IH _ _ _ _ _ _ _ H2). reflexivity.
+  Qed.
+
+  Theorem tr_exec_obs s : forall cur o x x' evs o' t,
+    tr_exec cur s o x = Some (x', evs, o', t) -> obs evs = visible t.
+  Proof.
+    induction s as [| | | | | | | | | | | | | | | | | |cc sa IHa sb IHb|sa IHa sb IHb|sb IHb|sb IHb|sb IHb|sb IHb| | | | | | | | | |lc sa IHa];
+      intros cur o x x' evs o' t H;
+      try solve [rewrite tr_exec_atom in H by reflexivity;
+                 match type of H with context[exec_atom cur ?s o x] =>
+                   destruct (exec_atom cur s o x) as [[[x1 e1] o1]|] eqn:E; [|discriminate H];
+                   injection H as <- <- <- <-; eapply exec_atom_obs; [|exact E]; reflexivity end].
+    - simpl in H. destruct (evalc cc cur o x) as [[[|] o1]|]; [eapply IHa|eapply IHb|discriminate]; exact H.
+    - simpl in H. apply tbind_some in H as (x1 & e1 & o1 & t1 & e2 & t2 & H1 & H2 & -> & ->).
+      rewrite obs_app, visible_app, (IHa _ _ _ _ _ _ _ H1), (IHb _ _ _ _ _ _ _ H2). reflexivity.
+    - simpl in H. eapply titer_slots_obs; [|exact H]. intros i o0 x0 x0' e0 o0' t0 Hb. eapply IHb; exact Hb.
+    - simpl in H. destruct o as [|[?|?|n|?] o1]; try discriminate. eapply titer_obs; [|exact H].
+      intros o0 x0 x0' e0 o0' t0 Hb. eapply IHb; exact Hb.
+    - simpl in H. eapply titer_obs; [|exact H]. intros o0 x0 x0' e0 o0' t0 Hb. eapply IHb; exact Hb.
+    - simpl in H. destruct o as [|[?|?|n|?] o1]; try discriminate. eapply titer_obs; [|exact H].
+      intros o0 x0 x0' e0 o0' t0 Hb. eapply titer_slots_obs; [|exact Hb].
+      intros i o2 x2 x2' e2 o2' t2 Hb2. eapply IHb; exact Hb2.
+    - simpl in H. eapply IHa; exact H.
+  Qed.
+End Obs.
+
+(* ------------------------------------------------------------------ completeness of [rem] *)
+Lemma union_mem L a b x : Good L a -> Good L b -> suffix x L -> In x a \/ In x b -> In x (union_rem a b).
+Proof.
+  intros Ha Hb Hx H. eapply Good_In; [apply Good_union; eassumption|exact Hx|].
+  apply union_rem_LIn. destruct H as [H|H]; [left|right]; apply In_LIn; exact H.
+Qed.
+
+Lemma Good_rem N T wd s l : Good l (rem N T wd s l).
+Proof. intros x H. eapply rem_shrinking; exact H. Qed.
+
+(* an atom consumes exactly the event it emits (nothing when it emits none, or a draw when draws are ignored) *)
+Lemma rem_atom_complete N T wd s rest : is_atom s = true -> In rest (rem N T wd s (proj wd (atom_tr s) ++ rest)).
+Proof. intros H. destruct s; try discriminate H; destruct wd; simpl; left; reflexivity. Qed.
+
+Section Complete.
+  Variables (lbs ubs : list Z) (f : contents -> Z) (hk : st -> st) (n_iter : nat) (okc : contents -> contents -> bool).
+  Notation exec := (exec lbs ubs f hk n_iter okc).
+  Notation exec_atom := (exec_atom lbs ubs f hk okc).
+  Notation tr_exec := (tr_exec lbs ubs f hk n_iter okc).
+  Notation tr_run := (tr_run lbs ubs f hk n_iter okc).
+  Hypothesis hk_len : forall y, length (pop (hk y)) = length (pop y).
+  Variables (N : nat) (wd : bool).
+
+  Lemma tr_exec_len cur s o x x' evs o' t :
+    tr_exec cur s o x = Some (x', evs, o', t) -> length (pop x') = length (pop x).
+  Proof. intros H. apply tr_exec_exec in H. eapply exec_len; [exact hk_len|exact H]. Qed.
+
+  (* [n] rounds of a body whose every execution is matched by [g] give a chain of [n] applications of [g] *)
+  Lemma titer_chain (body : list answer -> st -> tres) (g : list oev -> list (list oev)) :
+    (forall o x x' evs o' t, body o x = Some (x', evs, o', t) -> length (pop x) = N ->
+       length (pop x') = N /\ forall rest, In rest (g (proj wd t ++ rest))) ->
+    forall n o x x' evs o' t, titer n body o x = Some (x', evs, o', t) -> length (pop x) = N ->
+      length (pop x') = N /\ forall rest, chain g n (proj wd t ++ rest) rest.
+  Proof.
+    intros Hb n. induction n as [|n IH]; intros o x x' evs o' t H HN; simpl in H.
+    - injection H as <- <- <- <-. split; [exact HN|]. intros rest. destruct wd; simpl; constructor.
+    - apply tbind_some in H as (x1 & e1 & o1 & t1 & e2 & t2 & H1 & H2 & -> & ->).
+      destruct (Hb _ _ _ _ _ _ H1 HN) as [HN1 Hg]. destruct (IH _ _ _ _ _ _ H2 HN1) as [HN2 Hc].
+      split; [exact HN2|]. intros rest. rewrite proj_app, <- app_assoc.
+      econstructor; [apply Hg|apply Hc].
+  Qed.
+
+  Lemma titer_slots_chain (body : nat -> list answer -> st -> tres) (g : list oev -> list (list oev)) :
+    (forall i o x x' evs o' t, body i o x = Some (x', evs, o', t) -> length (pop x) = N ->
+       length (pop x') = N /\ forall rest, In rest (g (proj wd t ++ rest))) ->
+    forall n i o x x' evs o' t, titer_slots i n body o x = Some (x', evs, o', t) -> length (pop x) = N ->
+      length (pop x') = N /\ forall rest, chain g n (proj wd t ++ rest) rest.
+  Proof.
+    intros Hb n. induction n as [|n IH]; intros i o x x' evs o' t H HN; simpl in H.
+    - injection H as <- <- <- <-. split; [exact HN|]. intros rest. destruct wd; simpl; constructor.
+    - apply tbind_some in H as (x1 & e1 & o1 & t1 & e2 & t2 & H1 & H2 & -> & ->).
+      destruct (Hb _ _ _ _ _ _ _ H1 HN) as [HN1 Hg]. destruct (IH _ _ _ _ _ _ _ H2 HN1) as [HN2 Hc].
+      split; [exact HN2|]. intros rest. rewrite proj_app, <- app_assoc.
+      econstructor; [apply Hg|apply Hc].
+  Qed.
+
+  Notation rem := (rem N n_iter wd).
+
+  (* the sweep over the N slots: used by ForSlots and by every round of Onlooker *)
+  Lemma slots_complete sb :
+    (forall cur o x x' evs o' t, tr_exec cur sb o x = Some (x', evs, o', t) -> length (pop x) = N ->
+       forall rest, In rest (rem sb (proj wd t ++ rest))) ->
+    forall o x x' evs o' t,
+      titer_slots 0 (length (pop x)) (fun i => tr_exec (Some i) sb) o x = Some (x', evs, o', t) -> length (pop x) = N ->
+      length (pop x') = N /\ forall rest, In rest (iterate N (rem sb) [proj wd t ++ rest]).
+  Proof.
+    intros IHb o x x' evs o' t H HN. rewrite HN in H.
+    eapply (titer_slots_chain _ (rem sb)) in H; [|clear H|exact HN].
+    - destruct H as [HN' Hc]. split; [exact HN'|]. intros rest.
+      eapply iterate_complete; [apply rem_shrinking|apply Good_single|left; reflexivity|apply Hc].
+    - intros i o0 x0 x0' e0 o0' t0 Hb HN0. split; [rewrite <- HN0; eapply tr_exec_len; exact Hb|].
+      eapply IHb; eassumption.
+  Qed.
+
+  Theorem rem_complete s : forall cur o x x' evs o' t,
+    tr_exec cur s o x = Some (x', evs, o', t) -> length (pop x) = N ->
+    forall rest, In rest (rem s (proj wd t ++ rest)).
+  Proof.
+    induction s as [| | | | | | | | | | | | | | | | | |cc sa IHa sb IHb|sa IHa sb IHb|sb IHb|sb IHb|sb IHb|sb IHb| | | | | | | | | |lc sa IHa];
+      intros cur o x x' evs o' t H HN rest;
+      try solve [rewrite tr_exec_atom in H by reflexivity;
+                 match type of H with context[exec_atom cur ?s o x] =>
+                   destruct (exec_atom cur s o x) as [[[x1 e1] o1]|] eqn:E; [|discriminate H];
+                   injection H as <- <- <- <-; apply rem_atom_complete; reflexivity end].
+    - (* If *)
+      simpl in H. destruct (evalc cc cur o x) as [[[|] o1]|]; [| |discriminate];
+        (eapply union_mem; [apply Good_rem|apply Good_rem|apply suffix_app|]).
+      + left. eapply IHa; eassumption.
+      + right. eapply IHb; eassumption.
+    - (* Seq *)
+      simpl in H. apply tbind_some in H as (x1 & e1 & o1 & t1 & e2 & t2 & H1 & H2 & -> & ->).
+      assert (HN1 : length (pop x1) = N) by (rewrite <- HN; eapply tr_exec_len; exact H1).
+      rewrite proj_app, <- app_assoc.
+      eapply (step_mem _ (rem sb)); [apply rem_shrinking|apply Good_rem|eapply IHa; eassumption|eapply IHb; eassumption].
+    - (* ForSlots *)
+      simpl in H. eapply slots_complete in H; [apply H| |exact HN].
+      intros cur0 o0 x0 x0' e0 o0' t0 Hb HN0. eapply IHb; eassumption.
+    - (* RepeatAny *)
+      simpl in H. destruct o as [|[?|?|n|?] o1]; try discriminate.
+      eapply (titer_chain _ (rem sb)) in H; [|clear H|exact HN].
+      + destruct H as [_ Hc]. eapply star_complete; [apply rem_shrinking|apply Hc].
+      + intros o0 x0 x0' e0 o0' t0 Hb HN0. split; [rewrite <- HN0; eapply tr_exec_len; exact Hb|].
+        eapply IHb; eassumption.
+    - (* Repeat *)
+      simpl in H. eapply (titer_chain _ (rem sb)) in H; [|clear H|exact HN].
+      + destruct H as [_ Hc]. eapply iterate_complete; [apply rem_shrinking|apply Good_single|left; reflexivity|apply Hc].
+      + intros o0 x0 x0' e0 o0' t0 Hb HN0. split; [rewrite <- HN0; eapply tr_exec_len; exact Hb|].
+        eapply IHb; eassumption.
+    - (* Onlooker *)
+      simpl in H. destruct o as [|[?|?|n|?] o1]; try discriminate.
+      eapply (titer_chain _ (fun r => iterate N (rem sb) [r])) in H; [|clear H|exact HN].
+      + destruct H as [_ Hc]. eapply (star_complete (fun r => iterate N (rem sb) [r]));
+          [apply iterate_single_shrinking, rem_shrinking|apply Hc].
+      + intros o0 x0 x0' e0 o0' t0 Hb HN0. eapply slots_complete; [|exact Hb|exact HN0].
+        intros cur0 o2 x2 x2' e2 o2' t2 Hb2 HN2. eapply IHb; eassumption.
+    - (* At *) simpl in H. eapply IHa; eassumption.
+  Qed.
+End Complete.
+
+(* ------------------------------------------------------------------ the matcher is complete *)
+Theorem accepts_complete_gen : forall wd p lbs ubs f hk n_iter okc o x x' evs o' tr,
+  (forall y, length (pop (hk y)) = length (pop y)) ->
+  tr_run lbs ubs f hk n_iter okc p o x = Some (x', evs, o', tr) ->
+  accepts (length (pop x)) n_iter wd p (proj wd tr) = true.
+Proof.
+  intros wd p lbs ubs f hk n_iter okc o x x' evs o' tr Hhk H. unfold accepts. apply existsb_exists. exists []. split; [|reflexivity].
+  rewrite <- (app_nil_r (proj wd tr)). eapply rem_complete; [exact Hhk|exact H|reflexivity].
+Qed.
+
+(* every instrumented trace of an execution of [p] from a population of N agents, [n_iter] iterations, is accepted *)
+Theorem accepts_complete : forall p lbs ubs f hk n_iter okc o x x' evs o' tr,
+  (forall y, length (pop (hk y)) = length (pop y)) ->
+  tr_run lbs ubs f hk n_iter okc p o x = Some (x', evs, o', tr) ->
+  accepts (length (pop x)) n_iter true p tr = true.
+Proof. intros. eapply (accepts_complete_gen true); eassumption. Qed.
+
+(* with_draws = false (GP): the trace without its OR entries is accepted *)
+Theorem accepts_complete_nodraws : forall p lbs ubs f hk n_iter okc o x x' evs o' tr,
+  (forall y, length (pop (hk y)) = length (pop y)) ->
+  tr_run lbs ubs f hk n_iter okc p o x = Some (x', evs, o', tr) ->
+  accepts (length (pop x)) n_iter false p (filter (fun e => negb (oev_eqb e OR)) tr) = true.
+Proof. intros. eapply (accepts_complete_gen false); eassumption. Qed.
+
+(* stated on the semantics itself: every successful [run] has an instrumented trace, which is the same execution
+   (same final state, events, remaining oracle), whose visible part is the observable projection of the events,
+   and which the matcher accepts in both modes *)
+Theorem run_accepted : forall p lbs ubs f hk n_iter okc o x x' evs o',
+  (forall y, length (pop (hk y)) = length (pop y)) ->
+  run lbs ubs f hk n_iter okc p o x = Some (x', evs, o') ->
+  exists tr, tr_run lbs ubs f hk n_iter okc p o x = Some (x', evs, o', tr) /\
+             obs evs = visible tr /\
+             accepts (length (pop x)) n_iter true p tr = true /\
+             accepts (length (pop x)) n_iter false p (filter (fun e => negb (oev_eqb e OR)) tr) = true.
+Proof.
+  intros p lbs ubs f hk n_iter okc o x x' evs o' Hhk H. apply exec_tr_exec in H as [tr H]. exists tr.
+  split; [exact H|]. split; [eapply tr_exec_obs; exact H|].
+  split; [eapply accepts_complete|eapply accepts_complete_nodraws]; eassumption.
+Qed.
+
+Print Assumptions accepts_complete.
+Print Assumptions accepts_complete_nodraws.
+Print Assumptions run_accepted.
+Print Assumptions star_complete.
